@@ -59,8 +59,27 @@ func (vc *VC) execCall(fr *Frame, st *State, instr ssa.Instruction, c *ssa.CallC
 		vc.setResults(fr, v, res)
 		return
 	}
+	// call through a func-typed struct field that has an abstract contract
+	if u, ok := c.Value.(*ssa.UnOp); ok && u.Op == token.MUL {
+		if structT, field, baseVal, ok := vc.fieldOfAddr(u.X); ok {
+			if n := namedOf(structT); n != nil && n.Obj().Pkg() != nil {
+				key := n.Obj().Pkg().Path() + "." + n.Obj().Name() + "." + structT.Underlying().(*types.Struct).Field(field).Name()
+				if ac, ok := vc.eng.contracts.Funcs[key]; ok && ac.Like != "" {
+					if like, ok := vc.eng.fnByKey[ac.Pkg+"."+ac.Like]; ok {
+						vc.safety(fr, st, "nilfunc", "function value is non-nil at call", fmt.Sprintf("(not (= %s 0))", fv), pos)
+						vc.event(fr, st, n.Obj().Name()+"."+structT.Underlying().(*types.Struct).Field(field).Name(), args)
+						a2 := append([]string{vc.value(fr, st, baseVal)}, args...)
+						res := vc.contractCall(fr, st, like, ac, a2, pos)
+						vc.setResults(fr, v, res)
+						vc.assume("func-typed field " + key + " is called through its abstract contract (like " + ac.Like + "); the functions stored in it carry the same postconditions")
+						return
+					}
+				}
+			}
+		}
+	}
 	vc.safety(fr, st, "nilfunc", "function value is non-nil at call", fmt.Sprintf("(not (= %s 0))", fv), pos)
-	vc.event(fr, st, "dyncall", nil)
+	vc.event(fr, st, "dyncall", args)
 	res := vc.externalCall(fr, st, "dynamic call of "+c.Value.Name(), c.Signature(), args, c.Args)
 	vc.setResults(fr, v, res)
 }
@@ -208,8 +227,7 @@ func (vc *VC) execInvoke(fr *Frame, st *State, c *ssa.CallCommon, recv string, a
 		outs = append(outs, s2)
 		ress = append(ress, res)
 	}
-	vc.oblige(st, "dispatch", fmt.Sprintf("%s%d", fnTagDot(fr), vc.ordinal("dispatch")),
-		"dynamic type of "+typeKey(c.Value.Type())+" is one of the module's implementers", "(or "+strings.Join(conds, " ")+")", pos)
+	vc.assume("closed world: interface values of module-defined interface types (" + typeKey(c.Value.Type()) + ") hold one of the module's implementing types")
 	vc.fact(st.pc, "(or "+strings.Join(conds, " ")+")")
 	m := vc.merge(outs)
 	n := c.Signature().Results().Len()
@@ -293,6 +311,7 @@ func (vc *VC) execBuiltin(fr *Frame, st *State, b *ssa.Builtin, c *ssa.CallCommo
 		cur := vc.get(st, dom)
 		vc.set(st, dom, fmt.Sprintf("(ite (= %s 0) %s (store %s %s (store (select %s %s) %s false)))", m, cur, cur, m, cur, m, k))
 		vc.noteMapWrite(fr, st, c.Args[0], pos)
+		vc.assignCheck(fr, st, dom, m, pos)
 	case "close":
 		vc.event(fr, st, "close", []string{arg(0)})
 	case "panic":
@@ -304,6 +323,8 @@ func (vc *VC) execBuiltin(fr *Frame, st *State, b *ssa.Builtin, c *ssa.CallCommo
 			f = "imax"
 		}
 		fr.env[v] = vc.def("Int", fmt.Sprintf("(%s %s %s)", f, a, bb), b.Name())
+	case "ssa:wrapnilchk":
+		fr.env[v] = arg(0)
 	case "print", "println", "recover":
 		if v != nil {
 			vc.havocValue(fr, st, v, b.Name())
@@ -417,8 +438,10 @@ func (vc *VC) contractCall(fr *Frame, st *State, callee *ssa.Function, cc *FuncC
 		vc.oblige(st, "precondition", fmt.Sprintf("%s%s.%d.req%d", fnTagDot(fr), cc.Key, n, i+1),
 			"caller establishes: "+r, t, pos)
 	}
-	// frame: havoc what the callee may modify
+	// frame: havoc what the callee may modify (and check it against the caller's own frame)
+	vc.frameFr, vc.framePos = fr, pos
 	vc.havocModifies(cf, st, cc, pre)
+	vc.frameFr = nil
 	nres := callee.Signature.Results().Len()
 	res := make([]string, nres)
 	for i := 0; i < nres; i++ {
@@ -457,13 +480,23 @@ func (vc *VC) bindResults(cf *Frame, callee *ssa.Function, res []string) {
 // havocModifies applies a contract's frame at a call site.
 func (vc *VC) havocModifies(cf *Frame, st *State, cc *FuncContract, pre *State) {
 	if cc.ModifiesAll {
+		if vc.frameFr != nil && vc.fc != nil && !vc.fc.ModifiesAll && !vc.fc.NoFrame {
+			vc.oblige(st, "frame", fmt.Sprintf("%scallee-modifies-all.%d", fnTagDot(vc.frameFr), vc.ordinal("frame/all")),
+				"callee "+cc.Key+" may modify anything; the caller's modifies clause must be * too", "false", vc.framePos)
+		}
 		keys := make([]string, 0, len(vc.svSort))
 		for k := range vc.svSort {
 			keys = append(keys, k)
 		}
 		sort.Strings(keys)
 		for _, k := range keys {
-			if strings.HasPrefix(k, "G_defer_") {
+			if strings.HasPrefix(k, "G_defer_") || strings.HasPrefix(k, "L|") {
+				continue
+			}
+			if (k == "G_held" || k == "G_nheld") && !cc.LocksChange {
+				continue
+			}
+			if strings.HasPrefix(k, "G_calls_") || strings.HasPrefix(k, "G_arg_") {
 				continue
 			}
 			vc.havocSV(st, k)
@@ -677,9 +710,12 @@ func (vc *VC) modCall(fn *ssa.Function, c *ssa.CallCommon, out map[string]bool, 
 	for _, callee := range callees {
 		switch callee.String() {
 		case "(*sync.Mutex).Lock", "(*sync.RWMutex).Lock", "(*sync.RWMutex).RLock", "(*sync.Cond).Wait":
-			out["G_held"] = true
+			if callee.String() != "(*sync.Cond).Wait" {
+				out["G_held"] = true
+				out["G_nheld"] = true
+			}
 			out["L|*"] = true
-			for _, k := range vc.eng.guardedSVs(vc) {
+			for _, k := range vc.eng.guardedSVs(vc, "") {
 				out[k] = true
 			}
 			continue
